@@ -178,6 +178,12 @@ func runNBRandom(w *rt.World, res *hx.Result, kind int) *hx.Violation {
 		if idc < idKeep {
 			idc = idKeep
 		}
+		if cl.tcp && clRunt[c] >= 40 && clAbort[c] != 0 && !cl.linger && !cl.paced && !cl.stall && len(cl.reqs) >= 2 {
+			// sends one complete request and the beginning of the next, and waits for the first answer before it
+			// sends the rest (a server that sits on a finished response until the stream runs dry starves this client)
+			cl.splitWait = 1 + (clRunt[c]*7+c)%(1+len(cl.reqs[1].bytes))
+			rt.Probe(PTCPSplitWait)
+		}
 		cl.runtAt, cl.runtLen = -1, 0
 		if cl.tcp && clRunt[c] < 16 && clAbort[c] != 0 && !cl.silent && !cl.paced && !cl.stall && len(cl.reqs) > 0 {
 			cl.runtAt = clRunt[c] % 4 % len(cl.reqs)
@@ -615,6 +621,10 @@ func runNBRandom(w *rt.World, res *hx.Result, kind int) *hx.Violation {
 					Msg: fmt.Sprintf("client %d received %d responses for request %#04x although the network duplicated nothing in this run", cl.idx, seen[id], id)}
 			}
 		}
+		if cl.heldBack && !stoppedEarly && w.Stats.TimeSkips == 0 {
+			return &hx.Violation{Class: "no_response", Key: sysName + "/held-back",
+				Msg: fmt.Sprintf("tcp client %d sent one complete request and the first %d bytes of the next frame, then waited: the answer to the complete request did not come within 12 s", cl.idx, cl.splitWait)}
+		}
 		if cl.stall && cl.silentOpen && !stoppedEarly && w.Stats.TimeSkips == 0 {
 			return &hx.Violation{Class: "no_response", Key: sysName + "/stalled-frame",
 				Msg: fmt.Sprintf("tcp client %d sent the first byte of a frame, paused 31 s, then sent the rest and %d complete requests: the server neither closed the connection nor answered (%d of %d answers after 20 s of silence) -- its framing is out of step with the stream", cl.idx, len(cl.reqs), len(cl.got), len(cl.reqs))}
@@ -830,6 +840,21 @@ func tcpClient(cl *nbClient, window int) {
 			cl.trigger.Set()
 		}
 		return
+	}
+	if cl.splitWait > 0 && cl.runtAt < 0 {
+		first := 2 + len(cl.reqs[0].bytes)
+		c.SetDeadline(time.Unix(rt.EpochUnix, 0).Add(time.Duration(rt.Now() + 12e9)))
+		if _, err := c.Write(stream[:first+cl.splitWait]); err != nil {
+			return
+		}
+		f := readFrame(c)
+		if f == nil {
+			cl.heldBack = true
+			return
+		}
+		cl.got = append(cl.got, f)
+		c.SetDeadline(time.Unix(rt.EpochUnix, 0).Add(time.Duration(rt.Now() + 40e9)))
+		stream = stream[first+cl.splitWait:]
 	}
 	if _, err := c.Write(stream); err != nil {
 		return
